@@ -165,7 +165,7 @@ func c15Gen(t *rapid.T) c15Case {
 			s.V = rapid.SampledFrom([]uint32{0, 1, 100, 4096, 16384, 65535, 1 << 20}).Draw(t, "val")
 		case "h":
 			s.K = k.Draw(t, "k")
-			s.Op = rapid.SampledFrom([]int{0, 1, 1, 2, 2, 2, 3, 4, 5}).Draw(t, "hop")
+			s.Op = rapid.SampledFrom([]int{0, 1, 1, 2, 2, 2, 3, 4, 5, 6, 6}).Draw(t, "hop")
 			s.V = rapid.SampledFrom([]uint32{0, 1, 100, 5000, 70000}).Draw(t, "n")
 		case "wu":
 			s.K = k.Draw(t, "k")
@@ -263,6 +263,12 @@ func (h *c15Handler) ServeHTTP(w http.ResponseWriter, req *http.Request) {
 				req.Body.Read(buf)
 			case 4:
 				panic(http.ErrAbortHandler)
+			case 6: // finish with response trailers: the last frame is HEADERS with END_STREAM
+				w.Header().Set(http.TrailerPrefix+"X-Vp-Trailer", "done")
+				if cmd.n > 0 {
+					w.Write(make([]byte, cmd.n%2000))
+				}
+				return
 			case 5: // response asking to close the connection: graceful shutdown
 				w.Header().Set("Connection", "close")
 				w.WriteHeader(200)
